@@ -50,6 +50,7 @@ Uninhabited(s) == RecOnlyReach(s, Defs(s), {})
 (***************************************************************************)
 Explained(e, clause) == {}   \* filled per finding below
 
+ContentWhys == {"bigdec-inner", "uuidtext", "uuidlen", "utf8", "boolbyte", "enumindex", "intrange"}
 OneSidedAllocRefusal(e) == (e.gen.ekind = "alloc") # (e.ser.ekind = "alloc")
 
 DatumFails(e) ==
@@ -70,6 +71,14 @@ DatumFails(e) ==
              \/ OneSidedAllocRefusal(e)
              \/ (g.ok = e.ser.ok /\ (g.ok => g.consumed = e.ser.consumed)),
              "C06:decoders-disagree")
+     \* targets that ignore part / all of the datum (deserialize_ignored_any): skipping may leave the CONTENT of the
+     \* skipped data unchecked (text validity, ranges), but must still find the same datum boundaries - in
+     \* particular a truncated datum stays an error.  (The other direction - the deserializer refuses to ignore
+     \* a record / enum / fixed at all - is a limitation of the target shape, not a statement about the bytes: drift.)
+     \cup UNION {If(g.panic \/ e.ser.ig[i].panic \/ ~e.ser.ig[i].ok
+                     \/ (~g.ok /\ (P.why \in ContentWhys \/ g.ekind = "alloc"))
+                     \/ (g.ok /\ g.consumed = e.ser.ig[i].consumed),
+                     "C06:ignoring-deserializer-accepts-what-the-decoder-rejects") : i \in 1..Len(e.ser.ig)}
      \cup If(~(P.ok /\ ~g.ok /\ ~g.panic) \/ e.limit < 500000000, "C02:rejected-spec-legal")
 
 (* Known finding C05-uninhabited-record-recursion: decoding under a record that contains itself through
@@ -95,7 +104,10 @@ Judge(e) ==
         \cup (IF e.entry = "datum" /\ e.outcome \in {"ok", "err"} /\ ~e.heavy THEN DatumFails(e) ELSE {})
       drift == IF e.entry = "datum" /\ e.outcome \in {"ok", "err"} /\ ~e.heavy /\ OneSidedAllocRefusal(e) /\ e.gen.ok # e.ser.ok
                THEN {"limit-refusal-by-one-decoder-only"} ELSE {}
-  IN [fail |-> fail, known |-> {}, drift |-> drift]
+      drift2 == IF e.entry = "datum" /\ e.outcome \in {"ok", "err"} /\ ~e.heavy /\ e.gen.ok
+                   /\ \E i \in 1..Len(e.ser.ig) : ~e.ser.ig[i].ok /\ ~e.ser.ig[i].panic /\ e.ser.ig[i].ekind # "alloc"
+                THEN {"deserializer-cannot-ignore-this-shape"} ELSE {}
+  IN [fail |-> fail, known |-> {}, drift |-> drift \cup drift2]
 
 Init == l = 1
 Next == /\ l <= Len(Rec)
